@@ -29,6 +29,7 @@ pub fn def() -> CheckDef {
         cpu_limit_s: 240,
         fault_kinds: "F-FC deviation recipes (enumerated at every place, and combined), plus a sample of C05 damage for clause (a)",
         count_subruns: true,
+        expect_probes: &["deviations_applicable"],
     }
 }
 
